@@ -10,8 +10,9 @@ WIDTH_BOUND = 1 << 48   # no string of 2^48 columns exists in a process
 
 
 class Contracts:
-    def __init__(self, fns, default_pure=False, extra_inline=(), fixed=None, effects_inline=()):
+    def __init__(self, fns, default_pure=False, extra_inline=(), fixed=None, effects_inline=(), option_eq=False):
         self.fns = fns
+        self.option_eq = option_eq   # define <Option<usize> as PartialEq>::eq structurally instead of leaving it opaque
         self.used = {}
         self.default_pure = default_pure
         self.extra_inline = tuple(extra_inline)
@@ -56,6 +57,10 @@ class Contracts:
             return self.then_some
         if getattr(self, "check_unwrap", None) and re.search(r"^Option::<.*>::(unwrap|expect)$", callee):
             return self.unwrap
+        if self.option_eq and callee == "<Option<usize> as PartialEq>::eq":
+            d = "<Option<usize> as PartialEq>::eq: structural (same variant, and equal payloads when Some) - the derived impl"
+            self.used[d] = self.used.get(d, 0) + 1
+            return self.opt_eq
         if re.search(r"^<.* as PartialEq(<.*>)?>::ne$", callee):
             d = "PartialEq::ne(a, b) == !PartialEq::eq(a, b) (same symbol)"
             self.used[d] = self.used.get(d, 0) + 1
@@ -99,6 +104,23 @@ class Contracts:
     def ne(self, ex, callee, argv, argkey, ty, pc):
         eq = ex.typed_fresh(f"{callee[:-4]}::eq({argkey})", "bool")
         return ("bool", f"(not {eq[1]})")
+
+    @staticmethod
+    def opt_parts(ex, v):
+        """(is_some term, payload term or None) of an Option<usize> value"""
+        if v[0] == "enum":
+            return ("true", v[2][1]) if v[1] == "Some" else ("false", None)
+        if v[0] == "option":
+            return (v[1], v[2][1])
+        if v[0] == "opq":
+            d = ex.typed_fresh(f"discr({v[1]})", "isize")
+            return (f"(= {d[1]} (_ bv1 64))", ex.typed_fresh(f"{v[1]}@Some.0", "usize")[1])
+        raise Unsupported("Option<usize> value of unexpected shape: " + repr(v)[:80])
+
+    def opt_eq(self, ex, callee, argv, argkey, ty, pc):
+        (sa, pa), (sb, pb) = self.opt_parts(ex, argv[0]), self.opt_parts(ex, argv[1])
+        same = f"(= {pa} {pb})" if pa is not None and pb is not None else "true"
+        return ("bool", f"(and (= {sa} {sb}) (=> {sa} {same}))")
 
     def then_some(self, ex, callee, argv, argkey, ty, pc):
         return ("option", argv[0][1], argv[1])
